@@ -184,9 +184,9 @@ func buildPlan(id string, pinned map[string]string, tier string) *Plan {
 		}
 		p.Trusted = []string{"opaque calls: every callee is treated as returning arbitrary values and assumed not to write through its arguments (setter-style methods write their receiver)",
 			"IsInSubGroup is declared pure (a deterministic predicate of the point)", "option functional-nested-slices (SHPLONK, fflonk): the rows of the vectors of points and claimed values are functions of the row indices; rows read at indices that are not the same term are distinct objects (the verifiers only read them); fflonk: no slice of the proof is longer than 2^31 (precondition: 32-bit length prefixes of the codec)", "the set of checks each scheme prescribes is written in the contracts from the schemes' definitions; its cryptographic sufficiency is not proved"}
-		p.NotCovered = []string{"completeness (honest proofs are accepted) is not under contract", "the relation SHPLONK establishes (its totality, its size checks and 'nil only after the pairing check passed' are under contract; the value of F and the transcript are opaque), the folding relation of fflonk (its totality and size relation are under contract), the single-round verification and VerifyOpening of FRI (only the entry point VerifyProofOfProximity is under contract) and the mpcsetup verifiers: not under contract; permutation and lookup arguments: deriveRandomness binds every listed point in order (under contract), but WHICH commitments the verifiers list for each challenge is captured only through the call order of the derivations",
+		p.NotCovered = []string{"completeness (honest proofs are accepted) is not under contract", "the relation SHPLONK establishes (its totality, its size checks and 'nil only after the pairing check passed' are under contract; the value of F and the transcript are opaque), the folding relation of fflonk (its totality and size relation are under contract), the single-round verification and VerifyOpening of FRI (only the entry point VerifyProofOfProximity is under contract) and the mpcsetup verifiers: not under contract; permutation and lookup arguments: how the transcript hashes what is bound is the C15 contract; the table variant's challenge lambda binds a list built in a loop (not stated)",
 			"Pedersen BatchVerifyMultiVk: the equality of the G2 parameters across keys and the exact arguments of the folded pairing check are not under contract (slices of structs are not modelled); an empty batch is excluded by precondition (it panics)"}
-		p.Note = "Acceptance-implies-check: Vortex Params.Verify returns nil only if uAlpha evaluated at the point equals the folded claims, uAlpha is a codeword, the numbers of opened columns and proofs match, and every selected column is in range, consistent with uAlpha, SIS-hashed and Merkle-authenticated (end-of-iteration obligation on every iteration). IsReedSolomonCodewords returns true only if, for each of the four base-field coordinates in turn, the vector handed to the inverse transform on the second domain was that coordinate of the codeword entry by entry over the whole codeword length, and every entry NbColumns..SizeCodeWord-1 of the transformed vector was then tested for zero (transform and bit reversal: opaque calls that overwrite their argument). SHPLONK BatchVerify (7 curves): total on every proof (every index operation and the documented precondition of interpolate are obligations); nil only if the numbers of digests, point sets and claimed-value vectors agree, every vector of claimed values has one value per point, and the single pairing check, made on (F, proof.WPrime) against the lines of the verifying key, returned true without error. deriveRandomness of the permutation and lookup arguments (7 curves each): a challenge binds the raw encoding of every point of the list it is handed, in order, before it is computed. SHPLONK deriveChallenge (7 curves): each challenge binds, in order and without omission or repetition, every point of every point set, every digest and every item of the transcript data before it is computed. fflonk BatchVerify (7 curves): total on every proof and list of point sets over all three steps (size checks, folding, extension of the sets): step 0 lets through only proofs in which every pack is non-empty, has vectors of the length of its point set, and whose folded opening has |pack| x |set| values (quantified invariants over the three-level vectors); step 1 folds, for every pack, every point of that pack's set (end-of-iteration obligation). Vector lookup (plookup) VerifyLookupVector (7 curves): nil only if the folded relation of the scheme holds on the four challenges (in derivation order) and the ten claimed values, both batched openings verified on the prescribed digests at nu and g*nu, and g has order exactly n. Table lookup VerifyLookupTables (7 curves): nil only if the folded commitment of the rows of f was compared with the inner proof's f and found equal, the folded commitment of the rows of t and the table of the inner proof were each compared with a commitment and found equal, and the permutation proof and the inner lookup proof both verified (the second clause failed on the pinned tree: finding F38, comt was computed and never used; repaired). FRI VerifyProofOfProximity (7 curves): total on every proof, nil only if the proof has the expected number of rounds and the single-round verification of every round returned nil. Permutation argument Verify (7 curves): nil only if the algebraic relation between the three challenges (in derivation order), the four batched claimed values and the shifted claimed value holds, the batched opening of (t1, t2, z, q) at eta and the opening of z at eta*g both verified, and g has order exactly n (g^(n/2) != 1, g^n == 1). Pedersen Verify: both points pass the subgroup test and the pairing check is made on exactly (commitment, pok) x (GSigmaNeg, G); BatchVerifyMultiVk: every commitment and every proof passes the subgroup test (quantified loop invariants over a shape-independent iteration counter), lengths agree, the pairing check result is honoured."
+		p.Note = "Acceptance-implies-check: Vortex Params.Verify returns nil only if uAlpha evaluated at the point equals the folded claims, uAlpha is a codeword, the numbers of opened columns and proofs match, and every selected column is in range, consistent with uAlpha, SIS-hashed and Merkle-authenticated (end-of-iteration obligation on every iteration). IsReedSolomonCodewords returns true only if, for each of the four base-field coordinates in turn, the vector handed to the inverse transform on the second domain was that coordinate of the codeword entry by entry over the whole codeword length, and every entry NbColumns..SizeCodeWord-1 of the transformed vector was then tested for zero (transform and bit reversal: opaque calls that overwrite their argument). SHPLONK BatchVerify (7 curves): total on every proof (every index operation and the documented precondition of interpolate are obligations); nil only if the numbers of digests, point sets and claimed-value vectors agree, every vector of claimed values has one value per point, and the single pairing check, made on (F, proof.WPrime) against the lines of the verifying key, returned true without error. deriveRandomness of the permutation and lookup arguments (7 curves each): a challenge binds the raw encoding of every point of the list it is handed, in order, before it is computed; and the verifiers hand it exactly the prescribed commitments: permutation epsilon <- (t1, t2), omega <- (z), eta <- (q); lookup beta <- (t, f, h1, h2), gamma <- (), alpha <- (z), nu <- (h). SHPLONK deriveChallenge (7 curves): each challenge binds, in order and without omission or repetition, every point of every point set, every digest and every item of the transcript data before it is computed. fflonk BatchVerify (7 curves): total on every proof and list of point sets over all three steps (size checks, folding, extension of the sets): step 0 lets through only proofs in which every pack is non-empty, has vectors of the length of its point set, and whose folded opening has |pack| x |set| values (quantified invariants over the three-level vectors); step 1 folds, for every pack, every point of that pack's set (end-of-iteration obligation). Vector lookup (plookup) VerifyLookupVector (7 curves): nil only if the folded relation of the scheme holds on the four challenges (in derivation order) and the ten claimed values, both batched openings verified on the prescribed digests at nu and g*nu, and g has order exactly n. Table lookup VerifyLookupTables (7 curves): nil only if the folded commitment of the rows of f was compared with the inner proof's f and found equal, the folded commitment of the rows of t and the table of the inner proof were each compared with a commitment and found equal, and the permutation proof and the inner lookup proof both verified (the second clause failed on the pinned tree: finding F38, comt was computed and never used; repaired). FRI VerifyProofOfProximity (7 curves): total on every proof, nil only if the proof has the expected number of rounds and the single-round verification of every round returned nil. Permutation argument Verify (7 curves): nil only if the algebraic relation between the three challenges (in derivation order), the four batched claimed values and the shifted claimed value holds, the batched opening of (t1, t2, z, q) at eta and the opening of z at eta*g both verified, and g has order exactly n (g^(n/2) != 1, g^n == 1). Pedersen Verify: both points pass the subgroup test and the pairing check is made on exactly (commitment, pok) x (GSigmaNeg, G); BatchVerifyMultiVk: every commitment and every proof passes the subgroup test (quantified loop invariants over a shape-independent iteration counter), lengths agree, the pairing check result is honoured."
 		return p
 	case "C15":
 		p := &Plan{ID: id}
